@@ -60,6 +60,16 @@ ValidBlockProofAbs(p, blk, h) ==
   /\ IsQuorum(h, {p.signers[i].s : i \in DOMAIN p.signers})
   /\ p.seedok
 
+\* ---- C11: a genuine message m of a correct node, handed to the correct peer n in state pre (same height, not committed), is
+\* accepted: NEW_VIEW adopted unless the peer's view is higher or it already holds a proposal for that view; VIEW_CHANGE counted
+\* by the leader it is addressed to unless that leader passed the view; PREPARE counted unless the peer's view is higher; COMMIT counted
+C11Accepts(m, n, pre, post) ==
+  CASE m.k = "NV" -> (pre.view <= m.v /\ ~HasPP(pre, m.v)) => (post.view = m.v /\ HasPP(post, m.v) /\ ThePP(post, m.v).x = m.pp.x)
+    [] m.k = "VC" -> (LeaderM(pre.h, m.vm) = n /\ pre.view <= m.v) => \E t \in post.vs : t.v = m.v /\ t.s = m.s
+    [] m.k = "P"  -> (m.v >= pre.view) => \E q \in post.ps : q.v = m.v /\ q.x = m.x /\ q.s = m.s
+    [] m.k = "C"  -> \E q \in post.cs : q.v = m.v /\ q.x = m.x /\ q.s = m.s
+    [] OTHER -> TRUE
+
 \* ---- property requirements on one event of node n: pre = observed state before, post = after
 Judge(e, n, pre, post) ==
   LET m      == e.msg
@@ -121,17 +131,23 @@ Judge(e, n, pre, post) ==
                           /\ (same => (HasPP(post, q.v) /\ ThePP(post, q.v).x = q.x
                                        /\ (IsQuorum(post.h, PrepSenders(post, q.v, q.x) \cup {ThePP(post, q.v).s})
                                            \/ IsQuorum(post.h, ComSenders(post, q.v, q.x))))), "c10_commit")
+  \* the same when the step also closes the height (the stores of the old height are gone from the post-state): what the node
+  \* held is its pre-state plus the message it was just given plus its own PREPARE of this step
+  /\ Chk((~same /\ e.ev = "deliver" /\ m.k \in {"PP", "P", "C", "NV"} /\ m.h = pre.h) =>
+           \A q \in {c \in sentC : c.h = pre.h} :
+             LET cs2 == pre.cs \cup (IF m.k = "C" THEN {[v |-> m.v, x |-> m.x, s |-> m.s]} ELSE {})
+                 ps2 == pre.ps \cup (IF m.k = "P" THEN {[v |-> m.v, x |-> m.x, s |-> m.s]} ELSE {}) \cup {[v |-> p.v, x |-> p.x, s |-> n] : p \in {r \in sentP : r.h = pre.h}}
+                 pp2 == pre.pp \cup (IF m.k = "PP" THEN {[v |-> m.v, x |-> m.x, s |-> m.s]} ELSE IF m.k = "NV" THEN {[v |-> m.v, x |-> m.pp.x, s |-> m.s]} ELSE {})
+             IN \E p \in pp2 : /\ p.v = q.v /\ p.x = q.x
+                                /\ \/ IsQuorum(pre.h, {t.s : t \in {u \in ps2 : u.v = q.v /\ u.x = q.x}} \cup {p.s})
+                                   \/ IsQuorum(pre.h, {t.s : t \in {u \in cs2 : u.v = q.v /\ u.x = q.x}}),
+         "c10_commit")
   /\ Chk(\A q \in sentPP : ~\E o \in H.pp : o[1] = q.h /\ o[2] = q.v /\ o[3] # q.x, "c10_two_proposals")
   /\ Chk(\A q \in sentNV : ~\E o \in H.pp : o[1] = q.h /\ o[2] = q.v /\ o[3] # q.pp.x, "c10_two_proposals")
   /\ Chk(same => \A q \in sentPP \cup sentNV : q.v >= pre.view, "c10_proposal_below_current_view")
   /\ Chk(\A q \in sentVC : H.vc[1] < q.h \/ (H.vc[1] = q.h /\ H.vc[2] < q.v), "c10_view_change_views_not_increasing")
   \* C11: genuine messages of correct nodes are accepted by correct peers in a matching state
-  /\ Chk((e.ev = "deliver" /\ same /\ e.from \in Correct /\ e.tmpl \in {"", "dup"} /\ m.h = pre.h /\ ~pre.committed) =>
-           CASE m.k = "NV" -> (pre.view <= m.v /\ ~HasPP(pre, m.v)) => (post.view = m.v /\ HasPP(post, m.v) /\ ThePP(post, m.v).x = m.pp.x)
-             [] m.k = "VC" -> (LeaderM(pre.h, m.vm) = n /\ pre.view <= m.v) => \E t \in post.vs : t.v = m.v /\ t.s = m.s
-             [] m.k = "P"  -> (m.v >= pre.view) => \E q \in post.ps : q.v = m.v /\ q.x = m.x /\ q.s = m.s
-             [] m.k = "C"  -> \E q \in post.cs : q.v = m.v /\ q.x = m.x /\ q.s = m.s
-             [] OTHER -> TRUE,
+  /\ Chk((e.ev = "deliver" /\ same /\ e.from \in Correct /\ e.tmpl \in {"", "dup"} /\ m.h = pre.h /\ ~pre.committed) => C11Accepts(m, n, pre, post),
          "c11_honest_message_rejected")
   \* C13: the heights passed to the new-consensus-round callback strictly increase
   /\ Chk(LET all == H.rounds \o [i \in DOMAIN e.rounds |-> e.rounds[i].h] IN
@@ -163,6 +179,11 @@ JudgeDrain(e, n, pre, post) ==
      /\ Chk(\A q \in post.vs : q.s # n => expl("VC", q.v, "-", q.s), "c08_unexplained_store_after_round_start")
      /\ Chk(\A q \in post.pp : q.s # n => (expl("PP", q.v, q.x, q.s) \/ \E mm \in msgs : mm.k = "NV" /\ mm.v = q.v /\ ValidNewView(mm, n, post.h)),
             "c08_unexplained_store_after_round_start")
+     \* C07 on this path: a proposal of a view above 0 held right after a round start came out of the cache, and must be the
+     \* proposal of a valid NEW_VIEW (for this instance - others never enter the cache) that was waiting there
+     /\ Chk(\A q \in post.pp : (q.s # n /\ q.v > 0) => \E mm \in msgs : mm.k = "NV" /\ mm.v = q.v /\ mm.pp.x = q.x /\ ValidNewView(mm, n, post.h),
+            "c07_adopted_view_without_valid_new_view_at_round_start")
+     /\ Chk(post.view > 0 => \E mm \in msgs : mm.k = "NV" /\ mm.v = post.view /\ ValidNewView(mm, n, post.h), "c07_adopted_view_without_valid_new_view_at_round_start")
 
 Conforms(e, n, post) ==
   LET pr == Predict(e, n) IN
@@ -197,6 +218,14 @@ Next ==
           /\ Chk(e.ev = "liveness_verdict" => e.committed, "c05_no_commit_after_stabilisation")
           /\ Chk(e.ev = "liveness_verdict" => e.timeouts <= 2 * e.bound + 10, "c05_commit_needed_too_many_timer_rounds")
           /\ Chk(e.ev = "liveness_verdict" => e.acceptors_pending = <<>>, "c05_acceptor_of_committed_view_did_not_commit")
+     ELSE IF e.ev = "probe"
+     \* C11, "delivered at once to replayed copies of every correct peer": the message a correct node just sent was handed to a
+     \* copy-by-replay of the correct peer e.n (a fresh real node given every input e.n has had); the run itself is not affected
+     THEN /\ UNCHANGED <<hdr, obs, cache, chain, approved, hist>>
+          /\ LET pre == NSOf(e.pre)  post == NSOf(e.post) IN
+             /\ Chk(~e.panic, "c12_panic")
+             /\ Chk((e.msg.h = pre.h /\ pre.h = post.h /\ ~pre.committed /\ pre.member) => C11Accepts(e.msg, e.n, pre, post),
+                    "c11_honest_message_rejected_by_replayed_copy_of_peer")
      ELSE LET n == e.n  pre == obs[n]  post == NSOf(e.post)  pr == Predict(e, n) IN
           /\ UNCHANGED hdr
           /\ obs' = [obs EXCEPT ![n] = post]
